@@ -69,18 +69,18 @@ Definition expected_panic_sites : list (string * string * string) := [
   ("src/node/find.rs::find_static", "prefix[common_prefix..]", "Model/OpsC.v find_static_c: sites 57-59, C07_index_level_find_is_the_find");
   ("src/node/delete.rs::delete_static", "self.static_children[index]", "Model/OpsC.v delete_c / delete_static_c: sites 60-67, C07_index_level_router_delete");
   ("src/node/delete.rs::delete_static", "prefix[child.state.prefix.len()..]", "Model/OpsC.v delete_c / delete_static_c: sites 60-67, C07_index_level_router_delete");
-  ("src/node/delete.rs::delete_static", ".remove(", "Model/OpsC.v delete_c / delete_static_c: sites 60-67, C07_index_level_router_delete");
-  ("src/node/delete.rs::delete_static", ".remove(", "Model/OpsC.v delete_c / delete_static_c: sites 60-67, C07_index_level_router_delete");
+  ("src/node/delete.rs::delete_static", "self.static_children.remove(", "Model/OpsC.v delete_c / delete_static_c: sites 60-67, C07_index_level_router_delete");
+  ("src/node/delete.rs::delete_static", "child.static_children.remove(", "Model/OpsC.v delete_c / delete_static_c: sites 60-67, C07_index_level_router_delete");
   ("src/node/delete.rs::delete_dynamic_constrained", "self.dynamic_constrained_children[index]", "Model/OpsC.v delete_c / delete_static_c: sites 60-67, C07_index_level_router_delete");
-  ("src/node/delete.rs::delete_dynamic_constrained", ".remove(", "Model/OpsC.v delete_c / delete_static_c: sites 60-67, C07_index_level_router_delete");
+  ("src/node/delete.rs::delete_dynamic_constrained", "self.dynamic_constrained_children.remove(", "Model/OpsC.v delete_c / delete_static_c: sites 60-67, C07_index_level_router_delete");
   ("src/node/delete.rs::delete_dynamic", "self.dynamic_children[index]", "Model/OpsC.v delete_c / delete_static_c: sites 60-67, C07_index_level_router_delete");
-  ("src/node/delete.rs::delete_dynamic", ".remove(", "Model/OpsC.v delete_c / delete_static_c: sites 60-67, C07_index_level_router_delete");
+  ("src/node/delete.rs::delete_dynamic", "self.dynamic_children.remove(", "Model/OpsC.v delete_c / delete_static_c: sites 60-67, C07_index_level_router_delete");
   ("src/node/delete.rs::delete_wildcard_constrained", "self.wildcard_constrained_children[index]", "Model/OpsC.v delete_c / delete_static_c: sites 60-67, C07_index_level_router_delete");
-  ("src/node/delete.rs::delete_wildcard_constrained", ".remove(", "Model/OpsC.v delete_c / delete_static_c: sites 60-67, C07_index_level_router_delete");
+  ("src/node/delete.rs::delete_wildcard_constrained", "self.wildcard_constrained_children.remove(", "Model/OpsC.v delete_c / delete_static_c: sites 60-67, C07_index_level_router_delete");
   ("src/node/delete.rs::delete_wildcard", "self.wildcard_children[index]", "Model/OpsC.v delete_c / delete_static_c: sites 60-67, C07_index_level_router_delete");
-  ("src/node/delete.rs::delete_wildcard", ".remove(", "Model/OpsC.v delete_c / delete_static_c: sites 60-67, C07_index_level_router_delete");
-  ("src/node/delete.rs::delete_end_wildcard_constrained", ".remove(", "Model/OpsC.v delete_c / delete_static_c: sites 60-67, C07_index_level_router_delete");
-  ("src/node/delete.rs::delete_end_wildcard", ".remove(", "Model/OpsC.v delete_c / delete_static_c: sites 60-67, C07_index_level_router_delete");
+  ("src/node/delete.rs::delete_wildcard", "self.wildcard_children.remove(", "Model/OpsC.v delete_c / delete_static_c: sites 60-67, C07_index_level_router_delete");
+  ("src/node/delete.rs::delete_end_wildcard_constrained", "self.end_wildcard_constrained_children.remove(", "Model/OpsC.v delete_c / delete_static_c: sites 60-67, C07_index_level_router_delete");
+  ("src/node/delete.rs::delete_end_wildcard", "self.end_wildcard_children.remove(", "Model/OpsC.v delete_c / delete_static_c: sites 60-67, C07_index_level_router_delete");
   ("src/node/display.rs::debug_node", "count -= 1", "Model/DisplayC.v go_c: site 70, C07_display_never_panics");
   ("src/node/display.rs::debug_node", "count -= 1", "Model/DisplayC.v go_c: site 70, C07_display_never_panics");
   ("src/node/display.rs::debug_node", "count -= 1", "Model/DisplayC.v go_c: site 70, C07_display_never_panics");
@@ -88,7 +88,7 @@ Definition expected_panic_sites : list (string * string * string) := [
   ("src/node/display.rs::debug_node", "count -= 1", "Model/DisplayC.v go_c: site 70, C07_display_never_panics");
   ("src/node/display.rs::debug_node", "count -= 1", "Model/DisplayC.v go_c: site 70, C07_display_never_panics");
   ("src/node/display.rs::debug_node", "count -= 1", "Model/DisplayC.v go_c: site 70, C07_display_never_panics");
-  ("src/nodes.rs::remove", ".remove(", "the Index / IndexMut / remove wrappers of Nodes behind children[index] and children.remove(index): Model/OpsC.v at_c / remove_c");
+  ("src/nodes.rs::remove", "self.vec.remove(", "the Index / IndexMut / remove wrappers of Nodes behind children[index] and children.remove(index): Model/OpsC.v at_c / remove_c");
   ("src/nodes.rs::index", "self.vec[index]", "the Index / IndexMut / remove wrappers of Nodes behind children[index] and children.remove(index): Model/OpsC.v at_c / remove_c");
   ("src/nodes.rs::index_mut", "self.vec[index]", "the Index / IndexMut / remove wrappers of Nodes behind children[index] and children.remove(index): Model/OpsC.v at_c / remove_c");
   ("src/router.rs::new", ".unwrap()", "C07_router_new_unwraps_succeed");
